@@ -180,11 +180,42 @@ StoreStep(ln) ==
     [] ln.op = "Stats" ->
          /\ Chk("stats@StoreTrace:173", F("stats") => r.ok /\ StatsOK(S, r.val))
          /\ Finish(S, ln)
+    [] ln.op = "Downgrade" ->
+         \* the database is rewritten to an older on-disk format version and opened
+         \* again: the migration must keep nodes, peers, links and balances;
+         \* nonce records of the old formats are legitimately discarded
+         /\ Chk("opening an older format failed", r.ok)
+         /\ Finish([S EXCEPT !.nonce = Empty], ln)
     [] ln.op = "Reopen" ->
          /\ r.ok
          /\ Finish(ReopenF(S).st, ln)
 
-IsStoreOp(op) == op \in {"Sleep", "SetNode", "GetNode", "ActiveHosts", "NodePeers", "UpdateNodePeers",
+\* the states a killed process may leave behind for the operation in flight:
+\* not applied at all, or applied completely
+AppliedSet(T, a) ==
+    CASE a.op = "SetNode"           -> {SetNodeF(T, a.id, NodeRecOf(a)).st}
+      [] a.op = "AddNodeBalance"    -> {AddNodeBalanceF(T, a.id, a.amt).st}
+      [] a.op = "AddAccountBalance" -> {AddAccountBalanceF(T, a.acct, a.amt).st}
+      [] a.op = "AddAccountNode"    -> {AddAccountNodeF(T, a.acct, a.id).st}
+      [] a.op = "UpdateNodePeers"   ->
+           IF ~Has(T.node, a.id) THEN {T}
+           ELSE {UpdateNodePeersF(T, a.id, ToSet(a.peers), a.block, dead).st :
+                    dead \in {d \in SUBSET DeadMay(T, a.id, ToSet(a.peers)) : DeadOK(T, a.id, ToSet(a.peers), d)}}
+      [] a.op = "Nonce"             -> {CheckAndSaveNonceF(T, a.ident, a.v, acc).st :
+                                           acc \in {b \in BOOLEAN : NonceDecisionOK(T, a.ident, a.v, b)}}
+      [] OTHER                      -> {T}
+
+\* kill -9 and restart (C13): everything acknowledged is there, the operation in
+\* flight is applied completely or not at all
+CrashStep(ln) ==
+    /\ ln.op = "Crash"
+    /\ \E T \in {S} \cup AppliedSet(S, ln.a.inflight) :
+          /\ ObsOK(T, ln.st)
+          /\ S' = T
+    /\ l' = l + 1
+    /\ UNCHANGED W
+
+IsStoreOp(op) == op \in {"Downgrade", "Sleep", "SetNode", "GetNode", "ActiveHosts", "NodePeers", "UpdateNodePeers",
                          "GetNodeBalance", "AddNodeBalance", "GetAccountBalance", "AddAccountBalance",
                          "AddAccountNode", "IsAccountNode", "GetAccountNodes", "Nonce", "Stats", "Reopen"}
 
@@ -198,6 +229,7 @@ TNext == /\ l <= Len(Trace)
          /\ LET ln == Trace[l] IN
             /\ ln.bad = ""
             /\ \/ ResetStep(ln)
+               \/ CrashStep(ln)
                \/ IsStoreOp(ln.op) /\ StoreStep(ln)
 
 TSpec == TInit /\ [][TNext]_tvars
